@@ -26,7 +26,11 @@ What the extraction changes, exhaustively (also reported in evidence):
   R3  `assert!(c)` / `assert_eq!(a, b)` / `debug_assert!(c)` become Verus `assert(c)` / `assert(a == b)`
       proof obligations (they must be proved never to fire);
   R4  the return type `-> T` becomes `-> (r: T)` when `ret=r` is given (names the result for `ensures`);
+  R4  `Error::X(format!(..))` (an error whose payload is message text) becomes a call to the uninterpreted `mk_err()`;
+      control flow is untouched;
   R5  struct definitions keep only the fields listed in `keep=` (fields of external types no extracted body mentions);
+  R8  `extract fragment`: a contiguous run of statements of a function body, delimited by two literal anchors, copied
+      verbatim into a wrapper function written in the template (used where the rest of the body is outside Verus' subset);
   R6  every `rewrite` directive, verbatim, listed in the evidence as a trusted rewrite;
   R7  constants marked fold=1 are evaluated by the extractor (integer literals, other constants of the same file,
       + - * / << >> and integer casts) and emitted as a literal with the source expression in a comment.
@@ -325,6 +329,9 @@ def extract_fn(repo, file, name, impl=None, nth=0, ret=None, spec="", inserts=()
         body2, nas = rewrite_asserts(body2)
         if nas:
             ex.notes.append("R3: %d exec assert(s) became proof obligations in %s" % (nas, ex.fn_name))
+    body2, nerr = rewrite_error_payloads(body2)
+    if nerr:
+        ex.notes.append("R4: %d error payload expression(s) replaced by mk_err() in %s" % (nerr, ex.fn_name))
     for (old, new) in rewrites:
         if body2.count(old) + sig2.count(old) < 1:
             raise LostAnchor("%s: rewrite source text not found: %r" % (ex.fn_name, old))
@@ -355,7 +362,15 @@ def extract_fn(repo, file, name, impl=None, nth=0, ret=None, spec="", inserts=()
     return ex
 
 
-def extract_struct(repo, file, name, keep=None):
+def extract_struct(repo, file, name, keep=None, derive=None):
+    text, notes = _extract_struct(repo, file, name, keep)
+    if derive:
+        text = "#[derive(%s)]\n" % ", ".join(derive) + text
+        notes = notes + ["R1: struct %s: derives re-stated as #[derive(%s)] (Structural = Verus' name for field-wise equality)" % (name, ", ".join(derive))]
+    return text, notes
+
+
+def _extract_struct(repo, file, name, keep=None):
     src = open(os.path.join(repo, file)).read()
     m = re.search(r"^[ \t]*(?:pub(?:\([^)]*\))?\s+)?struct\s+%s\b" % re.escape(name), src, re.M)
     if not m:
@@ -401,6 +416,39 @@ def extract_struct(repo, file, name, keep=None):
     raise LostAnchor("struct %s: unsupported form" % name)
 
 
+def extract_enum(repo, file, name):
+    src = open(os.path.join(repo, file)).read()
+    m = re.search(r"^[ \t]*(?:pub(?:\([^)]*\))?\s+)?enum\s+%s\b[^{;]*\{" % re.escape(name), src, re.M)
+    if not m:
+        raise LostAnchor("enum %s not found in %s" % (name, file))
+    e = match_brace(src, m.end() - 1)
+    text = src[m.start():e]
+    text = re.sub(r"^\s*///.*\n", "", text, flags=re.M)
+    text = re.sub(r"^\s*#\[[^\]]*\]\s*\n", "", text, flags=re.M)
+    text = re.sub(r"^\s*pub(\s*\([^)]*\))?\s+enum", "enum", text)
+    return text.strip() + "\n"
+
+
+ERR_RE = re.compile(r"(?:crate::error::)?Error::\w+\s*\(\s*format!\s*\(")
+
+
+def rewrite_error_payloads(body):
+    """R4: `Error::X(format!(..))` (the payload is text) becomes a call to the uninterpreted `mk_err()`."""
+    out, i, n = [], 0, 0
+    while True:
+        m = ERR_RE.search(body, i)
+        if not m:
+            out.append(body[i:])
+            break
+        out.append(body[i:m.start()])
+        p = body.index("(", m.start())
+        e = match_brace(body, p)
+        out.append("mk_err()")
+        i = e
+        n += 1
+    return "".join(out), n
+
+
 def _const_src(src, name, file):
     m = re.search(r"^[ \t]*(?:pub(?:\([^)]*\))?\s+)?const\s+%s\s*:\s*([^=;]+?)\s*=\s*([^;]*);" % re.escape(name), src, re.M | re.S)
     if not m:
@@ -442,7 +490,24 @@ def extract_const(repo, file, name, fold=False):
 
 
 # ------------------------------------------------------------------ template expansion
-DIRECTIVE = re.compile(r"/\*@extract\s+(fn|struct|const)\b(.*?)@\*/", re.S)
+DIRECTIVE = re.compile(r"/\*@extract\s+(fn|struct|const|enum|fragment)\b(.*?)@\*/", re.S)
+
+
+def extract_fragment(repo, file, name, impl, frm, to, nth=0):
+    """R8: the statements of a function body from the line containing `frm` up to (not including) the line containing
+    `to`, verbatim (after R2/R3/R4), to be wrapped by a hand-written function in the template."""
+    src = open(os.path.join(repo, file)).read()
+    start, fnpos, body_open, end = find_fn(src, name, impl=impl, nth=nth)
+    body = src[body_open:end]
+    if body.count(frm) != 1 or body.count(to) < 1:
+        raise LostAnchor("%s::%s: fragment anchors not found exactly (%d, %d)" % (impl, name, body.count(frm), body.count(to)))
+    a = body.rfind("\n", 0, body.index(frm)) + 1
+    b = body.rfind("\n", 0, body.index(to, a)) + 1
+    frag = body[a:b]
+    frag, _n = drop_log_statements(frag)
+    frag, _m = rewrite_asserts(frag)
+    frag, _k = rewrite_error_payloads(frag)
+    return frag, src[start:end]
 
 
 def _parse_kv(s):
@@ -529,9 +594,24 @@ def expand(template_text, repo):
             originals[ex.fn_name] = ex.orig
         elif kind == "struct":
             keep = kv.get("keep")
-            text, n2 = extract_struct(repo, kv["file"], kv["name"], keep.split(",") if keep else None)
+            derive = kv.get("derive")
+            text, n2 = extract_struct(repo, kv["file"], kv["name"], keep.split(",") if keep else None,
+                                      derive.split(",") if derive else None)
             notes += n2
             emit(text)
+        elif kind == "enum":
+            emit(extract_enum(repo, kv["file"], kv["name"]))
+        elif kind == "fragment":
+            hdr_kv = dict(kv)
+            fm = re.search(r'from="((?:[^"\\]|\\.)*)"', header)
+            tm = re.search(r'to="((?:[^"\\]|\\.)*)"', header)
+            frag, orig = extract_fragment(repo, kv["file"], kv["name"], kv.get("impl"), fm.group(1), tm.group(1), int(kv.get("nth", 0)))
+            fname = (kv.get("impl", "") + "::" if kv.get("impl") else "") + kv["name"]
+            notes.append("R8: fragment of %s (from `%s` up to `%s`) extracted verbatim and wrapped by the template" % (fname, fm.group(1), tm.group(1)))
+            start_line = out_len_lines + 1
+            emit(frag)
+            spans.append((fname + "[fragment]", start_line, out_len_lines))
+            originals[fname + "[fragment]"] = orig
         elif kind == "const":
             emit(extract_const(repo, kv["file"], kv["name"], fold=kv.get("fold") == "1"))
             if kv.get("fold") == "1":
